@@ -93,6 +93,21 @@ func TestSyncer(t *testing.T) {
 		runIn(func(t *testing.T) {
 			bg := context.Background()
 			chain := vh.NewChain("c", 1, N+8, time.Now().Add(-time.Duration(N+10)*time.Second), time.Second, uint64(mbt.Int(c, "epochLen")))
+			if k := mbt.Int(c, "aheadFrom"); k > 1 {
+				// a chain whose clock runs ahead of the local one from height k on: k is dated 8 s ahead (within the
+				// allowed drift), k+1 16 s, k+2 24 s ... (beyond it, however recent the header before them is)
+				now := time.Now()
+				ts := make([]int64, N+8)
+				for i := range ts {
+					h := i + 1
+					if h < k {
+						ts[i] = now.Add(-time.Duration(k-h) * time.Second).UnixNano()
+					} else {
+						ts[i] = now.Add(time.Duration(8*(h-k+1)) * time.Second).UnixNano()
+					}
+				}
+				chain = vh.NewChainTimes("c", 1, ts)
+			}
 			n := newNode(t, chain, 1, 1+id%3, hsync.WithBlockTime(time.Hour))
 			byHCh := make(chan struct{}, 64)
 			if mbt.Bool(c, "gateByHeight") {
@@ -193,6 +208,9 @@ func TestSyncer(t *testing.T) {
 						switch ev.Kind {
 						case "valid", "stale":
 							hdr = chain.At(uint64(ev.H))
+						case "ahead": // the chain's own header, dated beyond the allowed clock drift: refused as from the future
+							hdr = chain.At(uint64(ev.H))
+							ev.Kind = "future"
 						case "forged", "forgedFar":
 							hdr = chain.Forge(uint64(ev.H), uint64(100+i))
 						case "wrongchain":
